@@ -432,22 +432,38 @@ Step(m, ev) ==
       [] OTHER -> Bad(m, "MACHINERY:unknown-event")
 
 (* ------------------------------------------------------------------------------------------------------------ *)
-VARIABLES t, l, m, verdict
-vars == <<t, l, m, verdict>>
+VARIABLES t, l, m, verdict, stopped, firstAt
+vars == <<t, l, m, verdict, stopped, firstAt>>
+(* verdict: the clauses broken so far, in order of first occurrence, joined by "+" ("ok" = none).  A broken OBLIGATION at the  *)
+(* return of a call leaves the model consistent (the model follows the target, not the result), so the rest of the trace is   *)
+(* judged as well: one property's violation early in a trace does not hide another property's violation later.  A broken      *)
+(* GUARD on a frame, a machinery failure or a hang ends the trace: what follows cannot be interpreted.                         *)
 
 Events(i) == TraceLog[i].events
-Init == /\ t = 1 /\ l = 2 /\ verdict = "ok" /\ TLCSet(1, 0)
+Init == /\ t = 1 /\ l = 2 /\ verdict = "ok" /\ stopped = FALSE /\ firstAt = 0 /\ TLCSet(1, 0)
         /\ m = IF NTraces >= 1 THEN InitModel(Events(1)[1]) ELSE [none |-> 1]
 
-EndOfTrace == l > Len(Events(t)) \/ verdict # "ok"
+Machinery(c) == Len(c) >= 9 /\ SubSeq(c, 1, 9) = "MACHINERY"
+HasClause(v, c) == \E i \in 1..(Len(v) - Len(c) + 1) : SubSeq(v, i, i + Len(c) - 1) = c
+AfterRet(m2, ev) == [m2 EXCEPT !.closedOnce = @ \/ ev.api \in {"close", "exit"}, !.inClose = FALSE,
+                               !.dConns = IF ev.api \in {"close", "exit"} THEN {} ELSE @]
+
+EndOfTrace == l > Len(Events(t)) \/ stopped
 Consume == /\ t <= NTraces /\ ~EndOfTrace
-           /\ LET r == Step(m, Events(t)[l]) IN
-                /\ m' = r.m
-                /\ verdict' = IF r.fail = "" THEN "ok" ELSE r.fail
+           /\ LET ev == Events(t)[l]  r == Step(m, ev)
+                  goOn == r.fail # "" /\ ev.k = "ret" /\ ev.outcome # "hang" /\ ~Machinery(r.fail)
+              IN
+                /\ m' = IF goOn THEN AfterRet(r.m, ev) ELSE r.m
+                /\ verdict' = IF r.fail = "" THEN verdict
+                               ELSE IF Machinery(r.fail) THEN r.fail                    \* a machinery failure is the whole verdict
+                               ELSE IF verdict = "ok" THEN r.fail
+                               ELSE IF HasClause(verdict, r.fail) THEN verdict ELSE verdict \o "+" \o r.fail
+                /\ stopped' = (r.fail # "" /\ ~goOn)
+                /\ firstAt' = IF r.fail # "" /\ (firstAt = 0 \/ Machinery(r.fail)) THEN l ELSE firstAt
            /\ l' = l + 1 /\ t' = t
 NextTrace == /\ t <= NTraces /\ EndOfTrace
-             /\ PrintT(<<"VERDICT", TraceLog[t].id, verdict, l - 1>>) /\ TLCSet(1, t)
-             /\ t' = t + 1 /\ l' = 2 /\ verdict' = "ok"
+             /\ PrintT(<<"VERDICT", TraceLog[t].id, verdict, IF firstAt = 0 THEN l - 1 ELSE firstAt>>) /\ TLCSet(1, t)
+             /\ t' = t + 1 /\ l' = 2 /\ verdict' = "ok" /\ stopped' = FALSE /\ firstAt' = 0
              /\ m' = IF t + 1 <= NTraces THEN InitModel(Events(t + 1)[1]) ELSE [none |-> 1]
 Next == Consume \/ NextTrace
 Spec == Init /\ [][Next]_vars
